@@ -391,8 +391,7 @@ def compare_graph(ctx, spec, cases, impl, model_outs, variant="fixed"):
     for c, r, mline in zip(cases, impl["results"], model_outs):
         m = model_decode(mline)
         case = case_of(spec, c)
-        i_state = {"outcome": r["outcome"], "decls": [d[:2] for d in r["after"]["decls"]],
-                   "tags": r["after"]["tags"], "fs": r["after"]["fs"]}
+        i_state = {"outcome": r["outcome"], "decls": r["after"]["decls"], "tags": r["after"]["tags"], "fs": r["after"]["fs"]}
         if m != i_state:
             diff = {k: {"model": m[k], "impl": i_state[k]} for k in m if m[k] != i_state[k]}
             for k in ("decls", "tags", "fs"):
@@ -402,6 +401,10 @@ def compare_graph(ctx, spec, cases, impl, model_outs, variant="fixed"):
             ctx.disagree(case, {k: m[k] for k in diff}, dict({k: i_state[k] for k in diff if k == "outcome"}, msg=r.get("msg"), diff=diff),
                          where="remove (%s model)" % variant)
         ctx.traces_validated += 1
+        if variant == "fixed":
+            # the oracle is the boolean form of the theorems: it must be true of the model of the repaired code
+            for kind, exp, obs, what in oracle(spec, c, impl["before"], {"outcome": m["outcome"], "msg": "model", "after": m}):
+                ctx.disagree(case, obs, exp, where="the oracle (%s) is false of the model: %s" % (kind, what[:200]))
         bad = oracle(spec, c, impl["before"], r)
         for kind, exp, obs, what in bad:
             ctx.fail(kind, case, expected=exp, observed=obs, what=what)
